@@ -1,10 +1,198 @@
 /- driver ops for property C16 (model side of the correspondence) -/
 import Rsa.Core.Wire
+import Rsa.Core.Store
 
-open Lean Rsa.Wire
+open Lean Rsa.Wire Rsa.Store
 
 namespace Rsa.Drv.C16
 
-def handle : Handler := fun _op _j => none
+/-! wire format (strings travel as lists of code points, never as JSON text):
+    Val  : null | {"s":[cp…]} | {"t":"nd|list|tuple|scalar","sh":[…],"e":[atom…]} | {"d":[[key,val]…]}
+    atom : ["i",n] | ["f",x] | ["b",0|1] | ["s",[cp…]]     x : int | "p/q" | "nan" | "inf" | "-inf" | "-0" -/
+
+def asText (j : Json) : R String := do
+  let cps ← asList asNat j
+  pure (String.ofList (cps.map Char.ofNat))
+
+def ofText (s : String) : Json := ofList (fun c => ofNat c.toNat) s.toList
+
+def asNum (j : Json) : R Num :=
+  match j with
+  | .str "nan" => pure .nan
+  | .str "inf" => pure .pinf
+  | .str "-inf" => pure .ninf
+  | .str "-0" => pure .nzero
+  | _ => do let q ← asRat j; pure (.fin q)
+
+def ofNum : Num → Json
+  | .fin q => ofRat q
+  | .nan => Json.str "nan"
+  | .pinf => Json.str "inf"
+  | .ninf => Json.str "-inf"
+  | .nzero => Json.str "-0"
+
+def asAtom (j : Json) : R Atom := do
+  match ← asArr j with
+  | [tag, v] =>
+      match ← asStr tag with
+      | "i" => do pure (.num .int (← asNum v))
+      | "f" => do pure (.num .float (← asNum v))
+      | "b" => do pure (.num .bool (← asNum v))
+      | "s" => do pure (.str (← asText v))
+      | t => throw s!"bad atom tag {t}"
+  | _ => throw "bad atom"
+
+def ofAtom : Atom → Json
+  | .num .int x => Json.arr #[Json.str "i", ofNum x]
+  | .num .float x => Json.arr #[Json.str "f", ofNum x]
+  | .num .bool x => Json.arr #[Json.str "b", ofNum x]
+  | .str s => Json.arr #[Json.str "s", ofText s]
+
+def asCont (s : String) : R Cont :=
+  match s with
+  | "nd" => pure .nd
+  | "list" => pure .list
+  | "tuple" => pure .tuple
+  | "scalar" => pure .scalar
+  | _ => throw s!"bad container {s}"
+
+def ofCont : Cont → String
+  | .nd => "nd"
+  | .list => "list"
+  | .tuple => "tuple"
+  | .scalar => "scalar"
+
+partial def asVal (j : Json) : R Val := do
+  if j.isNull then return .none
+  match j.getObjVal? "s" with
+  | .ok s => return .str (← asText s)
+  | .error _ => pure ()
+  match j.getObjVal? "d" with
+  | .ok d => do
+      let entries ← asArr d
+      let kvs ← entries.mapM (fun e => do
+        match ← asArr e with
+        | [k, v] => do pure ((← asText k), (← asVal v))
+        | _ => throw "bad dict entry")
+      return mkDict kvs
+  | .error _ => pure ()
+  let c ← fld j "t" >>= asStr >>= asCont
+  let sh ← fld j "sh" >>= asList asNat
+  let el ← fld j "e" >>= asList asAtom
+  return .tens c sh el
+
+partial def ofVal : Val → Json
+  | .none => Json.null
+  | .str s => obj [("s", ofText s)]
+  | .tens c sh el => obj [("t", Json.str (ofCont c)), ("sh", ofList ofNat sh), ("e", ofList ofAtom el)]
+  | d =>
+      let rec entries : Val → List Json
+        | .dcons k v r => Json.arr #[ofText k, ofVal v] :: entries r
+        | _ => []
+      obj [("d", Json.arr (entries d).toArray)]
+
+def errName : Err → String
+  | .fileExists => "fileExists"
+  | .unicode => "unicode"
+  | .unstorable => "unstorable"
+  | .notDict => "notDict"
+  | .keyError => "keyError"
+  | .attrError => "attrError"
+  | .badShape => "badShape"
+  | .typeError => "typeError"
+  | .valueError => "valueError"
+  | .unbound => "unbound"
+  | .assertion => "assertion"
+  | .notFound => "notFound"
+  | .badFile => "badFile"
+  | .unspecified => "unspecified"
+
+def asKind (s : String) : R Kind :=
+  match s with
+  | "rdms" => pure .rdms
+  | "dataset" => pure .dataset
+  | "model" => pure .model
+  | "result" => pure .result
+  | _ => throw s!"bad kind {s}"
+
+def asFType (s : String) : R FType :=
+  match s with
+  | "hdf5" => pure .hdf5
+  | "pkl" => pure .pkl
+  | _ => throw s!"bad file type {s}"
+
+def asTarget (j : Json) : R Target := do
+  let p ← fld j "path" >>= asBool
+  let i ← fld j "id" >>= asNat
+  let e ← match fldD j "ext" Json.null with
+    | .str "h5" => pure Ext.h5
+    | .str "pkl" => pure Ext.pkl
+    | _ => pure Ext.other
+  pure { isPath := p, id := i, ext := e }
+
+structure St where
+  objs : Array (Kind × Val)
+  fs : FS
+  out : Array Json
+
+/-- a whole save / load session; the answer lists the outcome of every operation -/
+def session (j : Json) : R Json := do
+  let codec ← match fldD j "codec" (Json.str "utf8") with
+    | .str "ascii" => pure Codec.ascii
+    | _ => pure Codec.utf8
+  let objsJ ← fld j "objs" >>= asArr
+  let objs ← objsJ.mapM (fun o => do
+    let k ← fld o "kind" >>= asStr >>= asKind
+    let v ← fld o "obj" >>= asVal
+    pure (k, v))
+  let ops ← fld j "ops" >>= asArr
+  let mut st : St := { objs := objs.toArray, fs := [], out := #[] }
+  for op in ops do
+    let what ← fld op "do" >>= asStr
+    let t ← fld op "target" >>= asTarget
+    if what = "save" then
+      let i ← fld op "obj" >>= asNat
+      let ft ← fld op "ft" >>= asStr >>= asFType
+      let ov ← fld op "overwrite" >>= asBool
+      match st.objs[i]? with
+      | none => throw "bad object index"
+      | some (k, o) =>
+          let (fs', err, o') := save codec k st.fs t ft ov o
+          let r := obj [("err", match err with | none => Json.null | some e => Json.str (errName e)),
+                        ("pure", Json.bool (o' == o))]
+          st := { objs := st.objs.set! i (k, o'), fs := fs', out := st.out.push r }
+    else if what = "load" then
+      let k ← fld op "kind" >>= asStr >>= asKind
+      let ft ← asOpt (fun x => asStr x >>= asFType) (fldD op "ft" Json.null)
+      match load k st.fs t ft with
+      | .error e => st := { st with out := st.out.push (obj [("err", Json.str (errName e))]) }
+      | .ok o => st := { st with out := st.out.push (obj [("obj", ofVal (canon o))]) }
+    else throw s!"bad session op {what}"
+  pure (Json.arr st.out)
+
+/-- canonical form of a value (used to compare the in-memory originals) -/
+def canonOp (j : Json) : R Json := do
+  let v ← fld j "v" >>= asVal
+  pure (ofVal (canon v))
+
+/-- dictionary-level round trip `decode (encode d)` with either codec -/
+def h5rt (j : Json) : R Json := do
+  let codec ← match fldD j "codec" (Json.str "utf8") with
+    | .str "ascii" => pure Codec.ascii
+    | _ => pure Codec.utf8
+  let v ← fld j "v" >>= asVal
+  match encode codec v with
+  | .error e => pure (obj [("err", Json.str (errName e))])
+  | .ok t =>
+      match decode t with
+      | .error e => pure (obj [("err", Json.str (errName e))])
+      | .ok d => pure (obj [("obj", ofVal (canon d)), ("storable", Json.bool (storable codec v))])
+
+def handle : Handler := fun op j =>
+  match op with
+  | "c16.session" => some (session j)
+  | "c16.canon" => some (canonOp j)
+  | "c16.h5rt" => some (h5rt j)
+  | _ => none
 
 end Rsa.Drv.C16
